@@ -5,15 +5,27 @@ import (
 	"go/token"
 	"go/types"
 	"strings"
+	"sync"
 
 	"golang.org/x/tools/go/ssa"
 )
 
 // calleeName gives a name for any call: static callee, invoke, builtin or dynamic.
+var calleeCache sync.Map
+
 func calleeName(cc *ssa.CallCommon) string {
 	if sc := cc.StaticCallee(); sc != nil {
 		return fname(sc)
 	}
+	if s, ok := calleeCache.Load(cc); ok {
+		return s.(string)
+	}
+	s := calleeName1(cc)
+	calleeCache.Store(cc, s)
+	return s
+}
+
+func calleeName1(cc *ssa.CallCommon) string {
 	if cc.IsInvoke() {
 		t := cc.Value.Type()
 		tn := t.String()
